@@ -8,8 +8,7 @@ SCOPE = [("manager.fill", 400, 60), ("manager.collapse", 100, 60)]
 ORACLE_RULE = ("C12: streams with single, multiple and multi-bucket gaps x timeframe x append schedule with timeframe_fill=True on the real "
                "CandleManager vs an independent resample+fill; contiguity, flat zero-volume fills and schedule independence checked at every step")
 ASSUMPTIONS = ["timestamps are naive datetimes at second resolution; TZ=UTC for this check"]
-PARTIAL = ("batch statement proved at full strength (HexProps.C12.batch); the every-append-schedule statement "
-           "(HexProps.C12.schedule_FULL) is not yet proved and is covered by correspondence + search only")
+PARTIAL = ""
 _case = om.make_case(ID, tf=True, fill=True)
 
 
